@@ -130,10 +130,15 @@ async def _udp_main(case: dict) -> dict:
                     res["scope"] = scope
                     first = True
                     while True:
-                        if case.get("handler_style") == "poll-yield0" and not first:
+                        if case.get("handler_style") in ("poll-yield0", "poll-backend0") and not first:
                             try:
-                                request = yield 0
+                                if case["handler_style"] == "poll-yield0":
+                                    request = yield 0
+                                else:
+                                    with backend.timeout(0):
+                                        request = yield
                             except TimeoutError:
+                                res["empty_polls"] = res.get("empty_polls", 0) + 1
                                 await asyncio.sleep(0)
                                 continue
                         else:
@@ -175,8 +180,15 @@ async def _udp_main(case: dict) -> dict:
     while res["handled"] < max(2, case["warmup"] // 4):
         await asyncio.sleep(0)
         ticks += 1
-        if serve_task.done() or ticks > 100_000:
+        if serve_task.done():
             raise HarnessError(f"udp warm-up did not complete: handled={res['handled']} {serve_task!r}")
+        if ticks > 20_000:
+            raise Violation(
+                "no-progress",
+                f"the datagram handler ({case.get('handler_style', 'plain')}) received {res['handled']} datagrams in 20000 loop iterations although "
+                f"{res['fed']} were delivered for it ({res.get('empty_polls', 0)} polls came back empty): its backlog is never drained",
+                handler_style=case.get("handler_style", "plain"),
+            )
     for _ in range(case["extra_ticks"]):
         await asyncio.sleep(0)
     handled_at_call = res["handled"]
